@@ -39,8 +39,14 @@ def strategy_(draw, tier):
     bnd = draw(st.sampled_from([0, 0, 1, 2, 5, int(round(p_lo)), n // 5, n // 3]))
     case = {'fs': fs, 'f_range': [f_lo, f_hi], 'sig': sig, 'fk': fk, 'boundary': bnd,
             'first': draw(st.sampled_from(['peak', 'trough', None])), 'pad': draw(st.sampled_from([True, True, False])),
-            'dtype': draw(st.sampled_from(['float64'] * 5 + ['float32', 'int64', 'int16-rails', 'uint16', 'int64-rails'])),
+            'dtype': draw(st.sampled_from(['float64'] * 5 + ['float32', 'int64', 'int16-rails', 'uint16', 'int64-rails', 'float16', 'float32-huge'])),
             'np_scalars': draw(st.integers(0, 3)) == 0}
+    if case['pad'] and draw(st.integers(0, 9)) == 0:
+        # recordings shorter than the filter (down to a fraction of it): with pad=True they are accepted
+        fl = gen.filt_len_of(band, fk)
+        n2 = draw(st.integers(max(8, fl // 5), max(9, fl + 4)))
+        case['sig'] = draw(gen.st_signal(band, n2, tie_rich=False))
+        case['boundary'] = 0
     if draw(st.integers(0, 7)) == 0:
         # half-waves that touch the edge of the recording: a rhythm riding on a baseline, a kernel so short that its response has
         # no further zero-crossing inside the padding, nothing dropped at the boundary
@@ -64,6 +70,10 @@ def cast(x, kind):
     if kind == 'int64-rails':          # 64-bit counts clipping at +-2**61 with the last bit toggling: neighbours that float64 cannot tell apart
         xi = np.clip(np.round(x / span * 1.4 * 2.0 ** 61), -2.0 ** 61, 2.0 ** 61).astype(np.int64)
         return xi + ((np.arange(len(xi)) * 7) % 3 == 0).astype(np.int64)
+    if kind == 'float16':              # half-precision storage with an offset (finite, but its plain sum overflows float16)
+        return (x / span * 40 + 80).astype(np.float16)
+    if kind == 'float32-huge':         # finite single-precision values whose sum overflows float32
+        return (x / span * 1e37).astype(np.float32)
     if kind == 'uint16':               # offset binary bottoming out at 0
         return np.clip(np.round(x / span * 40000 + 30000), 0, 65535).astype(np.uint16)
     return x
